@@ -45,7 +45,12 @@ func (k SettlementKeeper) settleUTXRs(ctx sdk.Context, tenantId uint64) error {
 			break
 		}
 
-		valid, err := k.tryPayout(ctx, tenantId, &utxr)
+		// pay out on a branch of the state so that a failure in the middle of a multi-recipient payout leaves nothing behind
+		cacheCtx, writeCache := ctx.CacheContext()
+		valid, err := k.tryPayout(cacheCtx, tenantId, &utxr)
+		if err == nil {
+			writeCache()
+		}
 		if err != nil {
 			logger.Error("failed to payout", "tenant", tenantId, "recipient", utxr.Recipients, "amount", utxr.Amount.String(), "error", err)
 			break
